@@ -224,4 +224,28 @@ theorem wlConfig_aligned (m j nb : Nat) (hm : 0 < m) (hnb : 0 < nb) (hj : j + nb
   simp only [Int.toNat_natCast]
   rw [binCandidates_centre m j (by omega)]
 
+/-- **a move is only ever made to a sequence whose kappa lies in the relevant interval**: if the walker
+    moved (the proposal with kappa `k ∈ [0,1]` was accepted) then `rmin/n ≤ k ≤ (rmax+1)/n`, the union of
+    the closed intervals of the relevant bins of the `n`-bin partition the machine uses -/
+theorem moved_implies_kappa_in_range (cfg : WLCfg) (accept : Rat → Bool) (st : WLState) (k : Rat)
+    (hn : 0 < cfg.nbins) (h0 : 0 ≤ k) (h1 : k ≤ 1)
+    (hmoved : (wlMove cfg accept st (binOf cfg.nbins k)).2 = true) :
+    (cfg.rmin : Rat) / cfg.nbins ≤ k ∧ k ≤ ((cfg.rmax : Rat) + 1) / cfg.nbins := by
+  have hin : cfg.inside (binOf cfg.nbins k) = true := by
+    by_contra hc
+    have hf : cfg.inside (binOf cfg.nbins k) = false := by simpa using hc
+    have := (never_moves_outside cfg accept st _ hf).1
+    rw [this] at hmoved; exact Bool.noConfusion hmoved
+  unfold WLCfg.inside at hin
+  simp only [Bool.and_eq_true, decide_eq_true_eq] at hin
+  obtain ⟨hlo, hhi⟩ := binOf_contains cfg.nbins hn k h0 h1
+  have hnq : (0 : Rat) < cfg.nbins := by exact_mod_cast hn
+  constructor
+  · refine le_trans ?_ hlo
+    rw [div_le_div_iff_of_pos_right hnq]; exact_mod_cast hin.1
+  · refine le_trans hhi ?_
+    rw [div_le_div_iff_of_pos_right hnq]
+    have : ((binOf cfg.nbins k : Nat) : Rat) ≤ (cfg.rmax : Rat) := by exact_mod_cast hin.2
+    linarith
+
 end Cider.C18
